@@ -87,13 +87,15 @@ int main(int argc, char** argv) {
             // (a) type I, II, X, Y  ==  aligned with the zeta_f of Table 1
             const int ty = 1 + r.range(4);
             b.yukawa_type = static_cast<thdm::Yukawa_type>(ty);
-            b.Delta_u.setZero(); b.Delta_d.setZero(); b.Delta_l.setZero();
+            // Delta_f is documented as used by types 1-5: with the same Delta_f on both sides the relation holds as well (half of the cases; the other half Delta_f = 0)
+            const bool withDelta = r.chance(0.5);
+            if (!withDelta) { b.Delta_u.setZero(); b.Delta_d.setZero(); b.Delta_l.setZero(); }
             thdm::Mass_basis al = b; al.yukawa_type = thdm::Yukawa_type::aligned;
             al.zeta_u = 1 / tb; al.zeta_d = (ty == 1 || ty == 3) ? 1 / tb : -tb; al.zeta_l = (ty == 1 || ty == 4) ? 1 / tb : -tb;
             J c = gen::json(b); c.i("running", cfg.running_couplings).str("relation", "type-vs-aligned");
             THDM A(b, sm, cfg), B(al, sm, cfg);
             ++o.conclusive;
-            cmp_all("type-vs-aligned", "type" + std::to_string(ty) + "|" + runs, observe(A), observe(B), TOL_A, TOL_F, true, true, c);
+            cmp_all("type-vs-aligned", "type" + std::to_string(ty) + "|" + runs + (withDelta ? "|Delta_f!=0" : "|Delta_f=0"), observe(A), observe(B), TOL_A, TOL_F, true, true, c);
             o.sample(c, 1);
          } else if (rel == 1) {
             // (b) running off: aligned(zeta_f, Delta_f)  ==  general with Pi_f = cos(beta) (sqrt2 M_f (zeta_f + tan beta)/v + Delta_f)
